@@ -7,6 +7,7 @@ import itertools as itt
 from .. import kernel, mon_dsep
 from ..gen import events as gev
 from ..gen import graphs as gg
+from ..gen import queries as gq
 
 PROP = "C04"
 RULE = (
@@ -47,7 +48,9 @@ def _connected(gd, a, b):
     return b in seen
 
 
-def query(ctx, g, gd, a, b, C, gkey=None):
+def query(ctx, g, gd, a, b, C, gkey=None, raw=False):
+    """``raw``: g came through the public dataclass constructor and its two networkx members do not hold the same
+    nodes - a form outside what the factory methods produce: its verdicts are judged, an exception from it is counted."""
     from y0.algorithm.conditional_independencies import are_d_separated
     from y0.dsl import Variable
 
@@ -70,8 +73,13 @@ def query(ctx, g, gd, a, b, C, gkey=None):
     try:
         r = are_d_separated(g, Variable(a), Variable(b), conditions=cond)
     except Exception as e:  # noqa: BLE001
-        kernel.violation(PROP, "total", f"are_d_separated raised {type(e).__name__}: {e} on a valid query")
+        if raw:
+            kernel.count("C04:raw-dataclass-graph:raised-not-judged")
+        else:
+            kernel.violation(PROP, "total", f"are_d_separated raised {type(e).__name__}: {e} on a valid query")
         r = None
+    if raw:
+        kernel.count("C04:raw-dataclass-graph:queries")
     nt = bool(C) and bool(gd["bi"]) and _connected(gd, a, b)
     lo, hi = sorted((a, b))
     ctx.case(f"{gkey or gg.key(gd)}|{lo},{hi}|{','.join(sorted(C))}", nt,
@@ -259,6 +267,14 @@ def run_shard(ctx):
             if v1 != v2:
                 kernel.LOG.reset_case({"graph": gd, "graph2": gd2, "a": a, "b": b, "C": sorted(C)})
                 kernel.violation(PROP, "insertion-order", f"verdict {v1} vs {v2} for two insertion orders of one graph")
+            if _q % 3 == 0:
+                # the same diagram wrapped around two existing networkx graphs (public dataclass constructor): the
+                # bidirected member only knows the endpoints of bidirected edges
+                v3 = query(ctx, gq.raw_graph(g), gd, a, b, sorted(C), gkey + "|raw", raw=True)
+                if v3 is not None and v1 is not None and v3 != v1:
+                    kernel.LOG.reset_case({"graph": gd, "a": a, "b": b, "C": sorted(C), "raw": True})
+                    kernel.violation(PROP, "construction-path", f"verdict {v1} on the graph built by the factory methods, "
+                                     f"{v3} on the same diagram built with NxMixedGraph(directed=, undirected=)")
     # large dense graphs (more edges than any <=8-node DAG can have), small query sets: size-dependent code paths
     nbig = 0
     for _ in range(ctx.share({"quick": 160, "thorough": 4000}[ctx.tier])):
@@ -392,6 +408,11 @@ def replay(case):
         cf_queries(_C(), gd, case["event"], random.Random(0), fixed=(case["a"], case["b"], case["C"]))
         return
     v1 = query(_C(), gg.to_nx(gd), gd, case["a"], case["b"], case["C"])
+    if case.get("raw"):
+        v3 = query(_C(), gq.raw_graph(gg.to_nx(gd)), gd, case["a"], case["b"], case["C"], raw=True)
+        if v3 is not None and v1 is not None and v3 != v1:
+            kernel.violation(PROP, "construction-path", f"verdict {v1} on the graph built by the factory methods, "
+                             f"{v3} on the same diagram built with NxMixedGraph(directed=, undirected=)")
     if "graph2" in case:
         v2 = query(_C(), gg.to_nx(case["graph2"]), case["graph2"], case["a"], case["b"], case["C"])
         if v1 != v2:
